@@ -332,8 +332,13 @@ def gallina_of_model(model, k, dt):
         if a.dtype.kind in "iu":
             return (("intvec", a.dtype.name), [int(v) for v in flat])
         if a.dtype.kind == "f":
+            if not all(np.isfinite(flat)):
+                raise Unrecognised("non-finite float constant")
             if not all(float(v).is_integer() for v in flat):
-                raise Unrecognised("non-integral float constant")
+                if not (flat == flat[0]).all():
+                    raise Unrecognised("non-uniform fractional constant")
+                fr = Fraction(float(flat[0]))
+                return (("frac",), f"({zlit(fr.numerator)}, {zlit(fr.denominator)})")
             return (("fintvec",), [int(v) for v in flat])
         raise Unrecognised(f"constant dtype {a.dtype}")
 
@@ -385,11 +390,21 @@ def gallina_of_model(model, k, dt):
                 if len(sizes) != 1 or inits[n.input[1]].dtype != np.int64:
                     raise Unrecognised("Add on index vector: sizes")
                 r = (("idxvec", "int64"), f"(o_add {sbl('int64')} {ex[0]} {zlit(sizes[0])})")
+            elif op == "Sub" and kinds == [("frac",), ("fint",)]:
+                r = (("frac",), f"(q_sub_z {ex[0]} {ex[1]})")
+            elif op in ("Add", "Mul") and kinds == [("fint",), ("fint",)]:
+                r = (("fint",), f"({'z_add' if op == 'Add' else 'z_mul'} {ex[0]} {ex[1]})")
             else:
                 d = same_int()
                 nm = {"Add": "o_add", "Sub": "o_sub", "Mul": "o_mul", "Div": "o_div", "BitwiseAnd": "o_bitand",
                       "BitwiseOr": "o_bitor", "BitwiseXor": "o_bitxor"}[op]
                 r = (("int", d), f"({nm} {sbl(d)} {ex[0]} {ex[1]})")
+        elif op == "Abs" and kinds == [("frac",)]:
+            only()
+            r = (("frac",), f"(q_abs {ex[0]})")
+        elif op == "Sign" and kinds == [("frac",)]:
+            only()
+            r = (("fint",), f"(q_sign {ex[0]})")
         elif op in ("Neg", "Abs", "Sign", "BitwiseNot"):
             only()
             d = same_int()
@@ -410,6 +425,12 @@ def gallina_of_model(model, k, dt):
             nm = "o_max" if op == "Max" else "o_min"
             if all(kd[0] == "fint" for kd in kinds):
                 r = (("fint",), f"({nm} {ex[0]} {ex[1]})")
+            elif kinds[0][0] == "idxvec":
+                # clamping of a 1-element int64 start vector against a constant vector
+                bound = vec(n.input[1])
+                if len(bound) != 1 or inits[n.input[1]].dtype != np.int64:
+                    raise Unrecognised(f"{op} on index vector: bound")
+                r = (("idxvec", "int64"), f"({nm} {ex[0]} {zlit(bound[0])})")
             else:
                 d = same_int()
                 r = (("int", d), f"({nm} {ex[0]} {ex[1]})")
@@ -435,6 +456,8 @@ def gallina_of_model(model, k, dt):
             only()
             if kinds == [("bool",), ("bool",)] and op == "Equal":
                 r = (("bool",), f"(o_equal_b {ex[0]} {ex[1]})")
+            elif kinds == [("frac",), ("frac",)] and op == "Equal":
+                r = (("bool",), f"(q_eqb {ex[0]} {ex[1]})")
             else:
                 same_int()
                 nm = {"Equal": "o_equal", "Less": "o_less", "LessOrEqual": "o_le", "Greater": "o_greater",
@@ -446,7 +469,7 @@ def gallina_of_model(model, k, dt):
                 raise Unrecognised("Where condition kind")
             if kinds[1] == ("bool",) and kinds[2] == ("bool",):
                 r = (("bool",), f"(o_where_b {ex[0]} {ex[1]} {ex[2]})")
-            elif kinds[1][0] == "int" and kinds[1] == kinds[2]:
+            elif kinds[1][0] in ("int", "fint") and kinds[1] == kinds[2]:
                 r = (kinds[1], f"(o_where {ex[0]} {ex[1]} {ex[2]})")
             else:
                 raise Unrecognised(f"Where on {kinds}")
@@ -557,6 +580,20 @@ def coq_names(k, dt):
         d, s = k.extra["dim"], k.extra["size"]
         return f"(fun i => jax_dynamic_slice {sb} {d} {s} i)", f"(fun i => lowered_dynamic_slice {sb} {d} {s} i)", "slice"
     raise KeyError(n)
+
+
+def lowered_alternatives(k, dt):
+    """the Kernels.v terms a real export may be convertible to: lowered_<k> (the unchanged plugin) or, where a repair
+    is modelled and proved (repaired_<k>_correct), the repaired graph of .scratch/c01k/fix_*.diff"""
+    low = coq_names(k, dt)[1]
+    alts = [low]
+    if k.name == "round_away":
+        alts.append("repaired_round_away")
+    elif k.name == "one_hot":
+        alts.append(f"(fun i j => repaired_one_hot {sb_lit(dt)} {k.extra['n']} i j)")
+    elif k.name == "dynamic_slice":
+        alts.append(f"(fun i => repaired_dynamic_slice {sb_lit(dt)} {k.extra['dim']} {k.extra['size']} i)")
+    return alts
 
 
 def lit(v):
@@ -771,7 +808,7 @@ def d1_prepare(ctx, tier, rng):
     from onnx import defs
     items = []     # (label, dtype, coq function text, arg columns, ort rows, result kind)
     skipped_no_kernel, skipped_schema = [], []
-    cap = 120 if tier == "quick" else 400
+    cap = 80 if tier == "quick" else 400
 
     def add(label, op, attrs, dts_in, cols, coqf, kind, consts=None, post=None):
         model = _one_op_model(op, dts_in, [c.shape for c in cols], attrs, consts)
@@ -1076,9 +1113,13 @@ def run(ctx):
         v.s_job = None
         try:
             v.term, v.okind, v.ocode = gallina_of_model(v.model, v.k, v.dt)
-            low = coq_names(v.k, v.dt)[1]
-            v.s_job = jobs.add(f"Goal ({v.term}) = ({low}).\nProof. first [ timeout 20 reflexivity; idtac \"TIE_S_OK\" "
-                               f"| idtac \"TIE_S_BAD\" ]. Abort.\n")
+            alts = lowered_alternatives(v.k, v.dt)
+            goal = " \\/ ".join(f"(({v.term}) = ({a_}))" for a_ in alts)
+            tacs = []
+            for n_, a_ in enumerate(alts):
+                nav = "" if len(alts) == 1 else ("left; " * 1 if n_ == 0 else "right; ")
+                tacs.append(f"{nav}timeout 20 reflexivity; idtac \"TIE_S_OK\"")
+            v.s_job = jobs.add(f"Goal {goal}.\nProof. first [ " + " | ".join(tacs) + " | idtac \"TIE_S_BAD\" ]. Abort.\n")
         except Unrecognised as e:
             v.term_err = str(e)
 
@@ -1122,7 +1163,7 @@ def run(ctx):
     t_ = _time.time()
 
     # ---- ties D2 (jax_k == eager JAX) and D3 (lowered_k == onnxruntime(export)) (prepare): same grid, inside Coq
-    cap = 80 if tier == "quick" else 400
+    cap = 60 if tier == "quick" else 400
     for v in live:
         v.d2_job = v.d3_job = None
         try:
@@ -1145,7 +1186,8 @@ def run(ctx):
             v.d_cols, v.d_jr, v.d_or = cols, jr, orr
             v.d2_job = jobs.add(_render_cases(f"j{len(jobs.jobs)}", jx, cols, jr, kind))
             if orr is not None and v.s_job is not None:
-                v.d3_job = jobs.add(_render_cases(f"o{len(jobs.jobs)}", low, cols, orr, kind))
+                # D3 evaluates the Gallina translation of the REAL export (tie S makes it lowered_k or repaired_k)
+                v.d3_job = jobs.add(_render_cases(f"o{len(jobs.jobs)}", v.term, cols, orr, kind))
         except Exception as e:  # noqa: BLE001
             ctx.oblige(f"tieD2:{v.id}", False, "tie", f"cannot render the grid: {type(e).__name__}: {e}"[:300])
 
@@ -1167,7 +1209,7 @@ def run(ctx):
         elif results[v.s_job] is not True:
             ctx.oblige(f"tieS:{v.id}", False, "tie",
                        f"kernel structure not recognised: {v.k.name}: exported graph {structure(v.model)} translates to {v.term} "
-                       f"which is not convertible to {coq_names(v.k, v.dt)[1]}")
+                       f"which is not convertible to {' / '.join(lowered_alternatives(v.k, v.dt))}")
         else:
             n_s += 1
     ctx.oblige(f"tieS:exported-structure-convertible-to-lowered_k({n_s}/{len(live)} kernel x dtype variants)",
@@ -1212,7 +1254,7 @@ def run(ctx):
                         f"{np.asarray(v.jax[0] if islist else v.jax).dtype}",
                         {"kind": "value", "kernel": v.k.name, "dtype": v.dt, "input": point(v, 0), "nodes": structure(v.model)})
         if v.bad:
-            i = v.bad[0]
+            i = min(v.bad, key=lambda b_: (sum(abs(float(x)) for x in point(v, b_)), b_))     # the smallest failing input
             if v.shape_bad and not islist:
                 got = f"shape {np.asarray(v.ort).shape}"
             else:
@@ -1242,7 +1284,7 @@ def run(ctx):
             n_d3 += 1
             c_d3 += len(v.d_or)
             if bad is None or bad:
-                bad_d3.append(f"{v.id}: {coq_names(v.k, v.dt)[1]} " + ("could not be evaluated" if bad is None else
+                bad_d3.append(f"{v.id}: the OnnxInt evaluation of the exported graph " + ("could not be evaluated" if bad is None else
                               f"differs from onnxruntime on the real export on {len(bad)}/{len(v.d_or)} points, e.g. inputs "
                               f"{[c[bad[0]].item() for c in v.d_cols]} onnxruntime {v.d_or[bad[0]]}"))
     ctx.oblige(f"tieD2:jax_k-equals-eager-JAX({n_d2} variants, {c_d2} points)", not bad_d2, "tie", "; ".join(bad_d2[:6]))
